@@ -17,17 +17,17 @@ Definition own_after (s s' : st) (o : nat) (ob : obj) : Prop :=
     (pv s' (o_id ob') = Some (pcont (o_rec ob')) \/ (o_id ob' = o_id ob /\ pv s' (o_id ob') = pv s (o_id ob))).
 
 Lemma do_sop_pv s o id d hc op :
-  Inv noex s -> GR s -> hand s o id d -> nogetdel op = true ->
+  Inv noex s -> GR s -> hand s o id d ->
   let s' := fst (fst (do_sop s o hc op)) in
   (forall k, k <> id -> key_drawn s k -> pv s' k = pv s k) /\
   (forall ob, hget s o = Some ob ->
      if is_destroy op then hget s' o = Some ob /\ pv s' (o_id ob) = None else own_after s s' o ob).
 Proof.
-  intros HI HG HD Hop. cbv zeta. destruct HD as (ob & Hg & Hid & Hc & HH & Hpe). subst id.
+  intros HI HG HD. cbv zeta. destruct HD as (ob & Hg & Hid & Hc & HH & Hpe). subst id.
   assert (Hsame : (forall k, k <> o_id ob -> key_drawn s k -> pv s k = pv s k) /\
                   (forall ob0, hget s o = Some ob0 -> own_after s s o ob0)).
   { split; [reflexivity|]. intros ob0 Hg0. exists ob0. split; [exact Hg0|]. split; [reflexivity|]. right. auto. }
-  destruct op as [k v|k|k|k|u e| | |]; try discriminate Hop; cbn [do_sop is_destroy].
+  destruct op as [k v|k|k|k|u e| | |]; cbn [do_sop is_destroy].
   - (* Set *)
     unfold data_of. rewrite Hg. destruct (r_data (o_rec ob)) as [dd|]; [|(cbn [fst]; destruct Hsame as [SA SB]; split; [exact SA|]; intros ob0 E0; apply SB; rewrite Hg; exact E0)].
     destruct (modify_save_eff s o ob (fun r0 => set_data r0 (Some (kv_set dd k v))) HI HG HH Hg) as (s1 & Hs & _ & _ & _ & Hg1 & _).
@@ -49,6 +49,14 @@ Proof.
       intros ob0 Hg0. assert (ob0 = ob) by congruence. subst ob0. eexists. split; [exact Hg1|]. cbn [o_id o_rec].
       split; [reflexivity|]. left. rewrite B. reflexivity.
   - cbn [fst]. exact Hsame.
+  - (* GetAndDelete: as Delete when the key is found, else nothing *)
+    unfold data_of. rewrite Hg. destruct (r_data (o_rec ob)) as [dd|]; [|(cbn [fst]; destruct Hsame as [SA SB]; split; [exact SA|]; intros ob0 E0; apply SB; rewrite Hg; exact E0)].
+    destruct (kv_get dd k) as [v|]; [|(cbn [fst]; destruct Hsame as [SA SB]; split; [exact SA|]; intros ob0 E0; apply SB; rewrite Hg; exact E0)].
+    destruct (modify_save_eff s o ob (fun r0 => set_data r0 (Some (kv_del dd k))) HI HG HH Hg) as (s1 & Hs & _ & _ & _ & Hg1 & _).
+    destruct (modify_save_pv s o ob (fun r0 => set_data r0 (Some (kv_del dd k))) HI HH Hg (pcont_set_data _ _)) as (A & B).
+    rewrite Hs in *. cbn [fst] in *. split; [intros k' H1 _; apply (A k' H1)|].
+    intros ob0 Hg0. assert (ob0 = ob) by congruence. subst ob0. eexists. split; [exact Hg1|]. cbn [o_id o_rec].
+    split; [apply pcont_set_data|]. left. rewrite B, pcont_set_data. reflexivity.
   - (* LogIn *)
     destruct (login_pv s o ob u e HI HG HH Hg) as (A & B).
     destruct (login_ready s o ob u e (Inv_ready s HI) Hg (Inv_obj_not_next s o ob HI Hg))
@@ -136,17 +144,16 @@ Section Peer.
   Qed.
 
   Lemma run_script_pv ops : forall s o id d hc,
-    Inv noex s -> GR s -> hand s o id d -> forallb nogetdel ops = true ->
+    Inv noex s -> GR s -> hand s o id d ->
     let s' := fst (fst (run_script s o hc ops)) in
     (forall k, k <> id -> key_drawn s k -> pv s' k = None \/ pv s' k = pv s k) /\
     (ownp s o -> ownp s' o).
   Proof.
-    induction ops as [|op t IH]; intros s o id d hc HI HG HD Hops; cbn [run_script].
+    induction ops as [|op t IH]; intros s o id d hc HI HG HD; cbn [run_script].
     - cbn [fst]. split; [intros; right; reflexivity | auto].
-    - cbn [forallb] in Hops. apply andb_prop in Hops. destruct Hops as [Hop Hops].
-      destruct (do_sop_pv s o id d hc op HI HG HD Hop) as (Pk & Po).
+    - destruct (do_sop_pv s o id d hc op HI HG HD) as (Pk & Po).
       destruct (do_sop s o hc op) as [[s1 r1] c1] eqn:Hd. cbn [fst] in *.
-      destruct (do_sop_eff s o id d hc op s1 r1 c1 HI HG HD Hop Hd) as (HI1 & HG1 & _ & Hu1 & _ & _ & Hres).
+      destruct (do_sop_eff s o id d hc op s1 r1 c1 HI HG HD Hd) as (HI1 & HG1 & _ & Hu1 & _ & _ & Hres).
       destruct (fire_due_eff s1 HI1 HG1) as (HI2 & HG2 & _).
       pose proof (hand_drawn s o id d HI HD) as Hidd.
       assert (Pk2 : forall k, k <> id -> key_drawn s k -> pv (fire_due s1) k = None \/ pv (fire_due s1) k = pv s k).
@@ -166,7 +173,7 @@ Section Peer.
         { destruct op; try discriminate Edes. discriminate Estop. }
         destruct Hres as (id1 & HD1 & Hck).
         assert (HD2 : hand (fire_due s1) o id1 (g_op d op r1)) by (apply hand_fire_due; assumption).
-        destruct (IH (fire_due s1) o id1 _ hc HI2 HG2 HD2 Hops) as (Pk3 & Po3).
+        destruct (IH (fire_due s1) o id1 _ hc HI2 HG2 HD2) as (Pk3 & Po3).
         destruct (run_script (fire_due s1) o hc t) as [[s3 rs3] c3]. cbn [fst] in *.
         split.
         * intros k H1 H2.
